@@ -1501,3 +1501,159 @@ pub fn c13_shape_class(ty: &Ty, v: &TVal) -> Option<&'static str> {
         None
     }
 }
+
+// ------------------------------------------------------------------ length-erasing adapter
+
+/// Serializes like the wrapped value but announces no length for sequences and maps
+/// (`serialize_seq(None)` / `serialize_map(None)`), as iterator-backed and `#[serde(flatten)]`
+/// values do. The emitter has separate code paths for unknown lengths.
+pub struct NoLen<T>(pub T);
+
+struct Eraser<S>(S);
+struct ErasedCompound<C>(C);
+
+impl<T: Serialize> Serialize for NoLen<T> {
+    fn serialize<S: serde::Serializer>(&self, s: S) -> Result<S::Ok, S::Error> {
+        self.0.serialize(Eraser(s))
+    }
+}
+
+struct Wrap<'a, T: ?Sized>(&'a T);
+impl<T: ?Sized + Serialize> Serialize for Wrap<'_, T> {
+    fn serialize<S: serde::Serializer>(&self, s: S) -> Result<S::Ok, S::Error> {
+        self.0.serialize(Eraser(s))
+    }
+}
+
+macro_rules! fwd {
+    ($($name:ident($t:ty)),*) => { $( fn $name(self, v: $t) -> Result<S::Ok, S::Error> { self.0.$name(v) } )* };
+}
+
+impl<S: serde::Serializer> serde::Serializer for Eraser<S> {
+    type Ok = S::Ok;
+    type Error = S::Error;
+    type SerializeSeq = ErasedCompound<S::SerializeSeq>;
+    type SerializeTuple = ErasedCompound<S::SerializeTuple>;
+    type SerializeTupleStruct = ErasedCompound<S::SerializeTupleStruct>;
+    type SerializeTupleVariant = ErasedCompound<S::SerializeTupleVariant>;
+    type SerializeMap = ErasedCompound<S::SerializeMap>;
+    type SerializeStruct = ErasedCompound<S::SerializeStruct>;
+    type SerializeStructVariant = ErasedCompound<S::SerializeStructVariant>;
+    fwd!(serialize_bool(bool), serialize_i8(i8), serialize_i16(i16), serialize_i32(i32), serialize_i64(i64), serialize_i128(i128), serialize_u8(u8), serialize_u16(u16), serialize_u32(u32), serialize_u64(u64), serialize_u128(u128), serialize_f32(f32), serialize_f64(f64), serialize_char(char), serialize_str(&str), serialize_bytes(&[u8]));
+    fn serialize_none(self) -> Result<S::Ok, S::Error> {
+        self.0.serialize_none()
+    }
+    fn serialize_some<T: ?Sized + Serialize>(self, v: &T) -> Result<S::Ok, S::Error> {
+        self.0.serialize_some(&Wrap(v))
+    }
+    fn serialize_unit(self) -> Result<S::Ok, S::Error> {
+        self.0.serialize_unit()
+    }
+    fn serialize_unit_struct(self, n: &'static str) -> Result<S::Ok, S::Error> {
+        self.0.serialize_unit_struct(n)
+    }
+    fn serialize_unit_variant(self, n: &'static str, i: u32, v: &'static str) -> Result<S::Ok, S::Error> {
+        self.0.serialize_unit_variant(n, i, v)
+    }
+    fn serialize_newtype_struct<T: ?Sized + Serialize>(self, n: &'static str, v: &T) -> Result<S::Ok, S::Error> {
+        self.0.serialize_newtype_struct(n, &Wrap(v))
+    }
+    fn serialize_newtype_variant<T: ?Sized + Serialize>(self, n: &'static str, i: u32, var: &'static str, v: &T) -> Result<S::Ok, S::Error> {
+        self.0.serialize_newtype_variant(n, i, var, &Wrap(v))
+    }
+    fn serialize_seq(self, _len: Option<usize>) -> Result<Self::SerializeSeq, S::Error> {
+        self.0.serialize_seq(None).map(ErasedCompound)
+    }
+    fn serialize_tuple(self, len: usize) -> Result<Self::SerializeTuple, S::Error> {
+        self.0.serialize_tuple(len).map(ErasedCompound)
+    }
+    fn serialize_tuple_struct(self, n: &'static str, len: usize) -> Result<Self::SerializeTupleStruct, S::Error> {
+        self.0.serialize_tuple_struct(n, len).map(ErasedCompound)
+    }
+    fn serialize_tuple_variant(self, n: &'static str, i: u32, v: &'static str, len: usize) -> Result<Self::SerializeTupleVariant, S::Error> {
+        self.0.serialize_tuple_variant(n, i, v, len).map(ErasedCompound)
+    }
+    fn serialize_map(self, _len: Option<usize>) -> Result<Self::SerializeMap, S::Error> {
+        self.0.serialize_map(None).map(ErasedCompound)
+    }
+    fn serialize_struct(self, n: &'static str, len: usize) -> Result<Self::SerializeStruct, S::Error> {
+        self.0.serialize_struct(n, len).map(ErasedCompound)
+    }
+    fn serialize_struct_variant(self, n: &'static str, i: u32, v: &'static str, len: usize) -> Result<Self::SerializeStructVariant, S::Error> {
+        self.0.serialize_struct_variant(n, i, v, len).map(ErasedCompound)
+    }
+}
+
+impl<C: serde::ser::SerializeSeq> serde::ser::SerializeSeq for ErasedCompound<C> {
+    type Ok = C::Ok;
+    type Error = C::Error;
+    fn serialize_element<T: ?Sized + Serialize>(&mut self, v: &T) -> Result<(), C::Error> {
+        self.0.serialize_element(&Wrap(v))
+    }
+    fn end(self) -> Result<C::Ok, C::Error> {
+        self.0.end()
+    }
+}
+impl<C: serde::ser::SerializeTuple> serde::ser::SerializeTuple for ErasedCompound<C> {
+    type Ok = C::Ok;
+    type Error = C::Error;
+    fn serialize_element<T: ?Sized + Serialize>(&mut self, v: &T) -> Result<(), C::Error> {
+        self.0.serialize_element(&Wrap(v))
+    }
+    fn end(self) -> Result<C::Ok, C::Error> {
+        self.0.end()
+    }
+}
+impl<C: serde::ser::SerializeTupleStruct> serde::ser::SerializeTupleStruct for ErasedCompound<C> {
+    type Ok = C::Ok;
+    type Error = C::Error;
+    fn serialize_field<T: ?Sized + Serialize>(&mut self, v: &T) -> Result<(), C::Error> {
+        self.0.serialize_field(&Wrap(v))
+    }
+    fn end(self) -> Result<C::Ok, C::Error> {
+        self.0.end()
+    }
+}
+impl<C: serde::ser::SerializeTupleVariant> serde::ser::SerializeTupleVariant for ErasedCompound<C> {
+    type Ok = C::Ok;
+    type Error = C::Error;
+    fn serialize_field<T: ?Sized + Serialize>(&mut self, v: &T) -> Result<(), C::Error> {
+        self.0.serialize_field(&Wrap(v))
+    }
+    fn end(self) -> Result<C::Ok, C::Error> {
+        self.0.end()
+    }
+}
+impl<C: serde::ser::SerializeMap> serde::ser::SerializeMap for ErasedCompound<C> {
+    type Ok = C::Ok;
+    type Error = C::Error;
+    fn serialize_key<T: ?Sized + Serialize>(&mut self, k: &T) -> Result<(), C::Error> {
+        self.0.serialize_key(&Wrap(k))
+    }
+    fn serialize_value<T: ?Sized + Serialize>(&mut self, v: &T) -> Result<(), C::Error> {
+        self.0.serialize_value(&Wrap(v))
+    }
+    fn end(self) -> Result<C::Ok, C::Error> {
+        self.0.end()
+    }
+}
+impl<C: serde::ser::SerializeStruct> serde::ser::SerializeStruct for ErasedCompound<C> {
+    type Ok = C::Ok;
+    type Error = C::Error;
+    fn serialize_field<T: ?Sized + Serialize>(&mut self, k: &'static str, v: &T) -> Result<(), C::Error> {
+        self.0.serialize_field(k, &Wrap(v))
+    }
+    fn end(self) -> Result<C::Ok, C::Error> {
+        self.0.end()
+    }
+}
+impl<C: serde::ser::SerializeStructVariant> serde::ser::SerializeStructVariant for ErasedCompound<C> {
+    type Ok = C::Ok;
+    type Error = C::Error;
+    fn serialize_field<T: ?Sized + Serialize>(&mut self, k: &'static str, v: &T) -> Result<(), C::Error> {
+        self.0.serialize_field(k, &Wrap(v))
+    }
+    fn end(self) -> Result<C::Ok, C::Error> {
+        self.0.end()
+    }
+}
